@@ -80,6 +80,13 @@ def corruptions(rng, wf):
         w = clone()
         w['steps'][ids[-1]]['fields']['input']['kids']['n'] = ref('steps.%s.outputs.success.tok' % ids[0])
         out.append(('ref-type-mismatch', w))
+        for wait in (True, False):
+            w = clone()
+            w['steps'][ids[-1]]['fields']['input']['kids']['n'] = opt('steps.%s.outputs.success.tok' % ids[0], wait)
+            out.append(('optional-ref-type-mismatch-%s' % ('wait' if wait else 'soft'), w))
+        w = clone()
+        w['steps'][ids[-1]]['fields']['input']['kids']['n'] = opt('steps.%s.outputs.success.n' % ids[0], True)
+        out.append(('valid-optional-ref', w))
         w = clone()
         w['steps'][ids[-1]]['fields']['input']['kids']['deps'] = tmap(dict(deps_of(w, ids[-1]), g=opt('steps.%s.outputs.success' % ids[0], False)))
         w['steps'][ids[-1]]['fields']['wait_for'] = tmap({'deps': tmap({'g': opt('steps.%s.outputs.alt' % ids[0], True)})})
